@@ -134,7 +134,7 @@ func (h *wireHooks) Call(in *Interp, c *CallCtx, k func(*State, []Val)) bool {
 					}
 					in.symNames[id] = fmt.Sprintf("in%d", k)
 				}
-				c.St.emit(&Sym{Kind: "op", Name: fmt.Sprintf("fixed%d", sizeofType(t)), ID: id, Pos: c.Site.Pos(), Extra: "r:" + byteOrder(c.ArgEs[1])})
+				c.St.emit(&Sym{Kind: "op", Name: fmt.Sprintf("fixed%d", sizeofType(t)), ID: id, T: t, Pos: c.Site.Pos(), Extra: "r:" + byteOrder(c.ArgEs[1])})
 				// store into &x
 				if ue, ok := ast.Unparen(c.ArgEs[2]).(*ast.UnaryExpr); ok && ue.Op == token.AND {
 					if idn, ok := ast.Unparen(ue.X).(*ast.Ident); ok {
@@ -188,6 +188,7 @@ func (h *wireHooks) Call(in *Interp, c *CallCtx, k func(*State, []Val)) bool {
 							}
 							id := in.newSym()
 							sym.Name, sym.Extra, sym.ID, sym.Arg = fmt.Sprintf("fixed%d", n), "r:"+order, id, Val{}
+							sym.T = sig.Results().At(0).Type()
 							k(c.St, []Val{{K: KSym, Sym: id, T: sig.Results().At(0).Type()}})
 							return true
 						}
